@@ -54,7 +54,7 @@ def gen_graph(rng, wide=False):
     two = {"dag2": 0.7, "namecycle": 0.7}.get(shape, 0.3)          # share of names with two versions
     p_unres = 0.12 if rng.random() < 0.5 else 0.0
     p_uns = 0.15 if rng.random() < 0.12 else 0.0
-    p_j = 0.15 if rng.random() < 0.2 else 0.0
+    p_j = rng.choice([0.15, 0.3]) if rng.random() < 0.3 else 0.0
     p_expl = rng.choice([0.0, 0.3, 0.6])
     versions = {}
     for m in names:
@@ -89,6 +89,26 @@ def gen_graph(rng, wide=False):
             if deps and rng.random() < p_uns:
                 deps.insert(rng.randint(1, len(deps)), {"k": "unreq", "n": rng.choice(names), "v": None, "j": rng.random() < 0.3})
             prods.append({"name": m, "version": v, "deps": deps, "tags": ["current"] if v == cur else []})
+    if rng.random() < 0.3 and len(names) >= 3:
+        # a product reached through a -j line and through an ordinary path, in both orders, the -j target having
+        # dependencies of its own: it must be opened by the ordinary visit whichever comes first
+        byname = {}
+        for p in prods:
+            if "current" in p["tags"]:
+                byname.setdefault(p["name"], p)
+        cand = [m for m in names if m in byname]
+        if len(cand) >= 3:
+            x, y, z = rng.sample(cand, 3)
+            top = {"name": "jtop", "version": "1", "tags": ["current"], "deps": []}
+            jline = {"k": "req", "n": x, "v": None, "j": True}
+            oline = {"k": rng.choice(["req", "opt"]), "n": y, "v": None, "j": False}
+            top["deps"] = [jline, oline] if rng.random() < 0.5 else [oline, jline]
+            if not any(d["n"] == x and not d["j"] and d["k"] in ("req", "opt") for d in byname[y]["deps"]):
+                byname[y]["deps"].append({"k": "req", "n": x, "v": None, "j": False})
+            if not any(d["k"] in ("req", "opt") for d in byname[x]["deps"]):
+                byname[x]["deps"].append({"k": "req", "n": z, "v": None, "j": False})
+            prods.append(top)
+            shape += "+j"
     rng.shuffle(prods)
     return {"products": prods, "shape": shape}
 
@@ -205,6 +225,11 @@ def oracle_listing(R, root, mode, out, stats=None):
         names.setdefault(a[0], set()).add(a)
     twover = any(len(s) > 1 for s in names.values())
     if stats is not None:
+        jt = {t for u in expanded for t, j, _ in R.succ.get(u, []) if j and t[2]}
+        if any(t in expanded and R.succ.get(t) for t in jt):
+            stats("closure:j_target_opened_elsewhere")
+        if any(t not in expanded and R.succ.get(t) for t in jt):
+            stats("closure:j_target_not_opened")
         for flag, name in ((twover, "twoversions"), (cyclic, "cyclic"), (unsetup, "unsetup"), (any(not a[2] for a in nodes), "unresolved"),
                            (any(sum(1 for a in s if a[2]) > 1 for s in names.values()), "two_declared_versions")):
             if flag:
@@ -424,7 +449,9 @@ def evaluate(ctx, graphs, ncli=2, corpus=False):
             raise common.InfraError("implementation child failed: %r" % (io_["crash"],))
         R = Resolved(g)
         ml = model_lists(ans)
-        ctx.hist("shape=%s" % g.get("shape", "corpus"))
+        ctx.hist("shape=%s" % g.get("shape", "corpus").replace("+j", ""))
+        if g.get("shape", "").endswith("+j"):
+            ctx.hist("shape+j")
         ctx.hist("products=%d" % len(g["products"]))
         for ri, r in enumerate(roots):
             for mi, mode in enumerate(MODES):
@@ -624,7 +651,8 @@ def run(ctx):
         raise common.InfraError("degenerate distribution: %d non-trivial of %d" % (ctx.distinct_nontrivial, ctx.evaluations))
     h = ctx.histogram
     if not ctx.escalated and n >= 100:
-        for need in ("closure:cyclic", "closure:two_declared_versions", "closure:unresolved", "shape=cyclic"):
+        for need in ("closure:cyclic", "closure:two_declared_versions", "closure:unresolved", "shape=cyclic",
+                     "closure:j_target_opened_elsewhere", "closure:j_target_not_opened"):
             if not h.get(need):
                 raise common.InfraError("degenerate distribution: no case with %s" % need)
 
